@@ -9,6 +9,7 @@ from typing import Any, ClassVar
 from tree_sitter import Node
 
 from nix_manipulator.expressions.expression import TypedExpression
+from nix_manipulator._verif_hooks import emit as _verif_emit
 
 _SOURCE_PATH: ContextVar[Path | None] = ContextVar("nix_source_path", default=None)
 
@@ -17,9 +18,11 @@ _SOURCE_PATH: ContextVar[Path | None] = ContextVar("nix_source_path", default=No
 def source_path_context(path: Path | None):
     """Attach a base path so Nix paths can resolve file content."""
     token = _SOURCE_PATH.set(path)
+    _verif_emit("path_enter", path=str(path))
     try:
         yield
     finally:
+        _verif_emit("path_exit", path=str(path))
         _SOURCE_PATH.reset(token)
 
 
@@ -45,6 +48,7 @@ class NixPath(TypedExpression):
             raise ValueError("Path is missing")
         path = node.text.decode()
         source_path = _SOURCE_PATH.get()
+        _verif_emit("path_read", path=str(source_path))
         return cls(
             path=path,
             source_path=source_path,
